@@ -119,3 +119,48 @@ V("OW4-one-sided-hit-test", "C05", "OW4",
   ("tdms.py", "            if bounds[0] <= index < bounds[1]:\n", "            if index < bounds[1]:\n"))
 V("CE1-floor-blocks", "C05", "CE1",
   ("reader.py", "    num_chunks = (len(a) + chunk_size - 1) // chunk_size\n", "    num_chunks = len(a) // chunk_size\n"))
+
+# ---------------------------------------------------------------- C02 (OW1/OW2/HD1/RJ1)
+V("OW1-no-copy-update-nodata", "C02", "OW1",
+  ("tdms_segment.py", "            if existing_object.has_data:\n                new_obj = copy(existing_object)\n                new_obj.has_data = False\n",
+   "            if existing_object.has_data:\n                new_obj = existing_object\n                new_obj.has_data = False\n"))
+V("OW1-no-copy-reuse-matches", "C02", "OW1",
+  ("tdms_segment.py", "            if not previous_segment_obj.has_data:\n                segment_obj = copy(previous_segment_obj)\n                segment_obj.has_data = True\n",
+   "            if not previous_segment_obj.has_data:\n                segment_obj = previous_segment_obj\n                segment_obj.has_data = True\n"))
+V("OW1-reread-index-in-place", "C02", "OW1",
+  ("tdms_segment.py", "            segment_obj = self._new_segment_object(object_path, raw_data_index_header)\n            segment_obj.has_data = True\n            segment_obj.read_raw_data_index(file, raw_data_index_header, endianness)\n            self.ordered_objects[existing_object_index] = segment_obj\n",
+   "            existing_object.has_data = True\n            existing_object.read_raw_data_index(file, raw_data_index_header, endianness)\n"))
+V("OW2-share-list-no-slice", "C02", "OW2",
+  ("tdms_segment.py", "            self.ordered_objects = previous_segment.ordered_objects[:]\n", "            self.ordered_objects = previous_segment.ordered_objects\n"))
+V("OW2-unordered-key", "C02", "OW2",
+  ("tdms_segment.py", "        return len(self.objects) == len(other.objects) and all(\n            oa.path == ob.path for (oa, ob) in zip(self.objects, other.objects))",
+   "        return set(o.path for o in self.objects) == set(o.path for o in other.objects)"))
+V("OW2-benign-list-copy-call", "C02", None,
+  ("tdms_segment.py", "            self.ordered_objects = previous_segment.ordered_objects[:]\n", "            self.ordered_objects = list(previous_segment.ordered_objects)\n"))
+V("HD1-new-index-without-has-data", "C02", "HD1",
+  ("tdms_segment.py", "            # Changed metadata in this segment\n            segment_obj = self._new_segment_object(object_path, raw_data_index_header)\n            segment_obj.has_data = True\n",
+   "            # Changed metadata in this segment\n            segment_obj = self._new_segment_object(object_path, raw_data_index_header)\n"))
+V("HD1-matches-keeps-no-data", "C02", "HD1",
+  ("tdms_segment.py", "            # Re-use object and ensure we set has data to true for this segment\n            if not existing_object.has_data:\n                new_obj = copy(existing_object)\n                new_obj.has_data = True\n                self.ordered_objects[existing_object_index] = new_obj\n",
+   "            # Re-use object and ensure we set has data to true for this segment\n            pass\n"))
+V("RJ1-unseen-object-not-rejected", "C02", "RJ1",
+  ("tdms_segment.py", "                if raw_data_index_header == RAW_DATA_INDEX_MATCHES_PREVIOUS:\n                    raise ValueError(\"Raw data index for %s says to reuse previous structure, \"\n                                     \"but we have not seen this object before\" % object_path)\n                elif raw_data_index_header != RAW_DATA_INDEX_NO_DATA:",
+   "                if raw_data_index_header not in (RAW_DATA_INDEX_MATCHES_PREVIOUS, RAW_DATA_INDEX_NO_DATA):"))
+V("RJ1-type-change-warns-only", "C02", "RJ1",
+  ("reader.py", "        raise ValueError(\n            \"Segment data doesn't have the same type as previous \"\n            \"segments for objects %s. Expected type %s but got %s\" %\n            (path, obj.data_type, segment_object.data_type))",
+   "        log.warning(\n            \"Segment data doesn't have the same type as previous \"\n            \"segments for objects %s. Expected type %s but got %s\" %\n            (path, obj.data_type, segment_object.data_type))"))
+
+# ---------------------------------------------------------------- C13 (OW3)
+V("OW3-strain-astype-nocopy", "C13", "OW3",
+  ("scaling.py", "        voltage_out = data.astype(np.double)\n", "        voltage_out = data.astype(np.double, copy=False)\n"))
+V("OW3-linear-inplace", "C13", "OW3",
+  ("scaling.py", "        data = data.astype(np.dtype('float64'), copy=False)\n        return data * self.slope + self.intercept\n",
+   "        data = data.astype(np.dtype('float64'), copy=False)\n        data *= self.slope\n        data += self.intercept\n        return data\n"))
+V("OW3-thermistor-out-data", "C13", "OW3",
+  ("scaling.py", "            r_t = data / self.excitation_value\n", "            r_t = np.divide(data, self.excitation_value, out=data)\n"))
+V("OW3-helper-inplace", "C13", "OW3",
+  ("scaling.py", "    if resistance_configuration == 3:\n        return measured_resistance - lead_wire_resistance\n",
+   "    if resistance_configuration == 3:\n        measured_resistance -= lead_wire_resistance\n        return measured_resistance\n"),
+  ("scaling.py", "            r_t = data / self.excitation_value\n", "            r_t = data\n"))
+V("OW3-benign-np-array-copy", "C13", None,
+  ("scaling.py", "        voltage_out = data.astype(np.double)\n", "        voltage_out = np.array(data, dtype=np.double)\n"))
